@@ -56,6 +56,7 @@ def main(argv=None):
     ap.add_argument('--repo', default='/repo')
     ap.add_argument('--replay', default=None)
     ap.add_argument('--jobs', type=int, default=16)
+    ap.add_argument('--no-evidence', action='store_true', help='accepted for scratch runs (evidence is only ever written for --repo /repo)')
     ap.add_argument('--only', default=None, help='selftest: only variants whose id contains this')
     a = ap.parse_args(argv)
     try:
